@@ -1211,27 +1211,67 @@ const POSITIONS: [&str; 46] = [
 	"[if i == 1 then % for i in [1] if std.isArray(%) || true][0]",
 ];
 
+/// directories of a dependency case (below the case directory); `-J ../L0 -J ../L1` from `m`
+const DDIRS: [&str; 6] = ["m", "m/sub", "m/sub2", "m/sub/deep", "L1", "L0"];
+/// file names that exist in several directories at once: which file an import string means
+/// depends on the directory of the importing file
+const SHARED_NAMES: [&str; 3] = ["util.libsonnet", "common.libsonnet", "lib/helper.libsonnet"];
+
 struct DFile {
 	dir: &'static str,
 	name: String,
-	/// (kind 0 code / 1 str / 2 bin, target index or None)
-	edges: Vec<(u8, Option<usize>)>,
+	/// (kind 0 code / 1 str / 2 bin, import string as written, target index by reference resolution)
+	edges: Vec<(u8, String, Option<usize>)>,
 	broken: bool,
 }
 
-fn rel_import(from_dir: &str, to_dir: &str, name: &str) -> String {
-	// directories: "m", "m/sub", "L0", "L1" (below the case directory)
-	if to_dir.starts_with('L') {
-		return name.to_owned(); // through -J
+impl DFile {
+	/// the directory the file really lives in (the name may carry a directory part)
+	fn real_dir(&self) -> String {
+		let full = format!("{}/{}", self.dir, self.name);
+		full.rsplit_once('/').map(|(d, _)| d.to_owned()).unwrap_or_default()
 	}
-	match (from_dir, to_dir) {
-		(a, b) if a == b => name.to_owned(),
-		("m", "m/sub") => format!("sub/{name}"),
-		("m/sub", "m") => format!("../{name}"),
-		("L0" | "L1", "m") => format!("../m/{name}"),
-		("L0" | "L1", "m/sub") => format!("../m/sub/{name}"),
-		_ => name.to_owned(),
+}
+
+fn comps(p: &str) -> Vec<&str> {
+	p.split('/').filter(|c| !c.is_empty() && *c != ".").collect()
+}
+
+/// `dir` joined with the relative path `rel`, `..` folded (None: leaves the case directory)
+fn join_norm(dir: &str, rel: &str) -> Option<String> {
+	let mut v = comps(dir);
+	for c in comps(rel) {
+		if c == ".." {
+			v.pop()?;
+		} else {
+			v.push(c);
+		}
 	}
+	Some(v.join("/"))
+}
+
+/// reference resolution of an import string written in a file of directory `from_dir`:
+/// beside the importer first, then the right-most `-J` (L1), then L0
+fn ref_resolve(files: &[DFile], from_dir: &str, s: &str) -> Option<usize> {
+	let find = |full: Option<String>| -> Option<usize> {
+		let full = full?;
+		files.iter().position(|f| format!("{}/{}", f.dir, f.name) == full)
+	};
+	find(join_norm(from_dir, s)).or_else(|| find(join_norm("L1", s))).or_else(|| find(join_norm("L0", s)))
+}
+
+/// a relative path from directory `from` to the file `to_dir/name` (always a direct hit)
+fn rel_path(from: &str, to_dir: &str, name: &str) -> String {
+	let a = comps(from);
+	let b = comps(to_dir);
+	let mut i = 0;
+	while i < a.len() && i < b.len() && a[i] == b[i] {
+		i += 1;
+	}
+	let mut v: Vec<&str> = vec![".."; a.len() - i];
+	v.extend(&b[i..]);
+	v.extend(comps(name));
+	v.join("/")
 }
 
 fn run_deps(opts: &Opts) {
@@ -1240,54 +1280,112 @@ fn run_deps(opts: &Opts) {
 	let exe = bin("jrsonnet-deps");
 	let base = opts.out.join("fs");
 	let mut hist = BTreeMap::<String, usize>::new();
-	let n = if opts.thorough() { 2000 } else { 200 };
-	let mut witness_done = false;
+	let n = if opts.thorough() { 2000 } else { 240 };
 	for i in 0..n {
 		let cdir = base.clone();
 		let _ = fs::remove_dir_all(&cdir);
-		for d in ["m/sub", "L0", "L1"] {
+		for d in DDIRS {
 			fs::create_dir_all(cdir.join(d)).expect("mkdir");
 		}
-		let nf = 1 + rng.below(7);
-		let mut files: Vec<DFile> = (0..nf)
-			.map(|k| DFile {
-				dir: if k == 0 { "m" } else { *rng.pick(&["m", "m", "m/sub", "L1", "L1"]) },
-				name: format!("f{k}.libsonnet"),
-				edges: vec![],
-				broken: k != 0 && rng.chance(1, 12),
-			})
-			.collect();
-		let root_broken = rng.chance(1, 40);
-		files[0].broken = root_broken;
-		for k in 0..nf {
-			let ne = if rng.chance(1, 5) { 0 } else { 1 + rng.below(4) };
-			for _ in 0..ne {
-				let kind = *rng.pick(&[0u8, 0, 0, 1, 1, 2]);
-				let tgt = if rng.chance(1, 16) { None } else { Some(rng.below(nf)) };
-				files[k].edges.push((kind, tgt));
+		let mut files: Vec<DFile> = vec![DFile { dir: "m", name: "f0.libsonnet".into(), edges: vec![], broken: rng.chance(1, 40) }];
+		let mk = |dir: &'static str, name: &str, broken: bool| DFile { dir, name: name.to_owned(), edges: vec![], broken };
+		match i {
+			0 => {
+				// the repaired defect: listed by importstr first, imported as code afterwards
+				files[0].broken = false;
+				files.push(mk("m", "f1.libsonnet", false));
+				files.push(mk("m/sub", "f2.libsonnet", false));
+				files[0].edges = vec![(1, "f1.libsonnet".into(), None), (0, "f1.libsonnet".into(), None)];
+				files[1].edges = vec![(0, "sub/f2.libsonnet".into(), None)];
+			}
+			1 => {
+				// the same import string in two directories means two files (a private util beside
+				// each importer), each with its own imports
+				files[0].broken = false;
+				files.push(mk("m", "util.libsonnet", false));
+				files.push(mk("m/sub", "f2.libsonnet", false));
+				files.push(mk("m/sub", "util.libsonnet", false));
+				files.push(mk("m/sub", "f4.libsonnet", false));
+				files[0].edges = vec![(0, "util.libsonnet".into(), None), (0, "sub/f2.libsonnet".into(), None)];
+				files[2].edges = vec![(0, "util.libsonnet".into(), None)];
+				files[3].edges = vec![(1, "f4.libsonnet".into(), None)];
+			}
+			2 => {
+				// a -J library file with a same-named sibling next to one importer
+				files[0].broken = false;
+				files.push(mk("L1", "util.libsonnet", false));
+				files.push(mk("m/sub", "f2.libsonnet", false));
+				files.push(mk("m/sub", "util.libsonnet", false));
+				files.push(mk("L0", "util.libsonnet", false));
+				files[0].edges = vec![(1, "util.libsonnet".into(), None), (0, "sub/f2.libsonnet".into(), None)];
+				files[2].edges = vec![(2, "util.libsonnet".into(), None), (0, "util.libsonnet".into(), None)];
+			}
+			_ => {
+				let nf = 1 + rng.below(8);
+				for k in 1..nf {
+					let dir = *rng.pick(&["m", "m", "m/sub", "m/sub", "m/sub2", "m/sub/deep", "L1", "L1", "L0"]);
+					let mut name = format!("f{k}.libsonnet");
+					if rng.chance(3, 5) {
+						let shared = *rng.pick(&SHARED_NAMES);
+						if !files.iter().any(|f| f.dir == dir && f.name == shared) {
+							name = shared.to_owned();
+						}
+					}
+					files.push(mk(dir, &name, rng.chance(1, 24)));
+				}
+				let nf = files.len();
+				for k in 0..nf {
+					let ne = if rng.chance(1, 6) { 0 } else { 1 + rng.below(4) };
+					for _ in 0..ne {
+						let kind = *rng.pick(&[0u8, 0, 0, 1, 1, 2]);
+						let t = rng.below(nf);
+						let s = match rng.below(16) {
+							0 => format!("missing_{}.libsonnet", rng.below(3)),
+							// the bare name of some file: beside the importer, else through -J, else missing
+							1..=8 => files[t].name.clone(),
+							// a shared name whatever exists
+							9 | 10 => (*rng.pick(&SHARED_NAMES)).to_owned(),
+							// an explicit relative path to one particular file
+							_ => rel_path(&files[k].real_dir(), files[t].dir, &files[t].name),
+						};
+						// keep most graphs free of unresolvable imports (one is enough to fail the lister)
+						let s = if ref_resolve(&files, &files[k].real_dir(), &s).is_none() && rng.chance(5, 6) {
+							rel_path(&files[k].real_dir(), files[t].dir, &files[t].name)
+						} else {
+							s
+						};
+						files[k].edges.push((kind, s, None));
+					}
+				}
 			}
 		}
-		if !witness_done {
-			// the repaired defect: listed by importstr first, imported as code afterwards
-			witness_done = true;
-			files.truncate(1);
-			files[0].edges = vec![(1, Some(1)), (0, Some(1))];
-			files[0].broken = false;
-			files.push(DFile { dir: "m", name: "f1.libsonnet".into(), edges: vec![(0, Some(2))], broken: false });
-			files.push(DFile { dir: "m/sub", name: "f2.libsonnet".into(), edges: vec![], broken: false });
-		}
 		let nf = files.len();
+		for k in 0..nf {
+			for e in 0..files[k].edges.len() {
+				let t = ref_resolve(&files, &files[k].real_dir(), &files[k].edges[e].1);
+				files[k].edges[e].2 = t;
+			}
+		}
+		// how much of the case depends on the importer's directory: the same string written in two
+		// files and resolved to two different files
+		let mut by_string: HashMap<&str, Vec<Option<usize>>> = HashMap::new();
+		for f in &files {
+			for (_, s, t) in &f.edges {
+				let v = by_string.entry(s.as_str()).or_default();
+				if !v.contains(t) {
+					v.push(*t);
+				}
+			}
+		}
+		let ambiguous = by_string.values().filter(|v| v.len() > 1).count();
+		*hist.entry(format!("same-string-different-file{}", ambiguous.min(3))).or_default() += 1;
 		// write the files
 		let mut path_id: HashMap<PathBuf, usize> = HashMap::new();
 		for k in 0..nf {
 			let f = &files[k];
 			let mut items = vec![];
-			for (kind, tgt) in &f.edges {
+			for (kind, target, _) in &f.edges {
 				let kw = ["import", "importstr", "importbin"][*kind as usize];
-				let target = match tgt {
-					Some(t) => rel_import(f.dir, files[*t].dir, &files[*t].name),
-					None => format!("missing_{}.libsonnet", rng.below(3)),
-				};
 				let imp = format!("{kw} '{target}'");
 				let pos = if rng.chance(1, 3) { "%" } else { *rng.pick(&POSITIONS) };
 				items.push(pos.replace('%', &imp));
@@ -1297,13 +1395,9 @@ fn run_deps(opts: &Opts) {
 				text.push_str(" {{ (");
 			}
 			let p = cdir.join(f.dir).join(&f.name);
+			fs::create_dir_all(p.parent().expect("parent")).expect("mkdir");
 			fs::write(&p, text).expect("write file");
 			path_id.insert(p.canonicalize().expect("canon"), k);
-			if f.dir == "L1" && rng.chance(1, 2) {
-				// decoy with the same name in the lower-priority library directory
-				fs::write(cdir.join("L0").join(&f.name), "[import 'decoy_missing.libsonnet']").expect("decoy");
-				path_id.insert(cdir.join("L0").join(&f.name).canonicalize().expect("canon"), 900 + k);
-			}
 		}
 		// (a position that contains the placeholder twice repeats the same edge: same graph)
 		let graph: Vec<Value> = files
@@ -1312,7 +1406,7 @@ fn run_deps(opts: &Opts) {
 				if f.broken {
 					Value::Null
 				} else {
-					Value::Array(f.edges.iter().map(|(k, t)| json!([*k == 0, t])).collect())
+					Value::Array(f.edges.iter().map(|(k, _, t)| json!([*k == 0, t])).collect())
 				}
 			})
 			.collect();
@@ -1383,7 +1477,7 @@ fn run_deps(opts: &Opts) {
 	}
 	w.finish(
 		json!({"engine":"c15deps","cases":n,"hist":hist,
-			"rule":"random import graphs of 1-7 files over the main directory, a sub directory and two -J directories (with decoys in the lower-priority one), import/importstr/importbin edges placed in 24 syntactic positions, missing targets, unparsable files, cycles; jrsonnet-deps output vs DFS model and closure spec; every file an in-process evaluation loads must be listed"}),
+			"rule":"random import graphs of 1-8 files over the main directory, three sub directories and two -J directories; file names shared between directories (also names with a directory part) so that the same import string written in files of different directories means different files (beside the importer / right-most -J / other -J / missing); import/importstr/importbin edges by bare name, shared name or explicit relative path, placed in 46 syntactic positions; missing targets, unparsable files, cycles; jrsonnet-deps output vs DFS model and closure spec; every file an in-process evaluation loads must be listed"}),
 		&opts.out,
 	);
 }
